@@ -8,6 +8,12 @@ func unitDispatch(name string, args []string, out *bufio.Writer) bool {
 	case "unit-sketch":
 		unitSketch(args, out)
 		return true
+	case "conc-drain":
+		concDrain(args, out)
+		return true
+	case "unit-mpsc":
+		unitMpsc(args, out)
+		return true
 	case "unit-wheel":
 		unitWheel(args, out)
 		return true
